@@ -1,8 +1,9 @@
 package main
 
 import (
-	"os"
 	"fmt"
+	"go/types"
+	"os"
 	"regexp"
 	"strconv"
 	"strings"
@@ -114,6 +115,35 @@ func rulePrefix(c *Ctx, prefix string, want map[string]bool) {
 				if al, ok := unbox(call.Call.Args[1]).(*ssa.Alloc); ok && namedOf(al.Type()) == pkgDHCP6+".OptStatusCode" {
 					sc, _ := st.ReadLocal("new@" + anm(al) + ".StatusCode")
 					st.seen["status:"+sc] = true
+				}
+			}
+		}
+		if call, ok := in.(*ssa.Call); ok {
+			// EMPTY-HINT: comparing an address that is still the zero value of a placeholder
+			// literal with a non-empty constant is constantly false
+			if f := call.Call.StaticCallee(); f != nil && f.String() == "(net.IP).Equal" && len(call.Call.Args) == 2 {
+				counts["equal"]++
+				y := ex.Canon(st, call.Call.Args[1]).S
+				x := ex.Canon(st, call.Call.Args[0]).S
+				xs := ex.CanonSingleton(st, call.Call.Args[0]).S
+				guarded := false
+				for _, k := range sortedKeys(st.hist) {
+					f := st.hist[k]
+					if f.Kind == "eq" && f.X == "len("+x+")" && f.Eq == "" {
+						for _, ne := range f.Ne {
+							if ne == "0" {
+								guarded = true // the path tested len(x) != 0 first
+							}
+						}
+					}
+					if f.Kind == "nil" && f.X == x && !f.Val {
+						guarded = true
+					}
+				}
+				if g := globalByName(c.P, y); g != nil && staticLenOfGlobal(c.P, g) > 0 && strings.HasPrefix(xs, "new@") && !guarded {
+					if v, ok := st.ReadLocal(xs); ok && strings.HasPrefix(v, "zero:") {
+						addb("KEEP.EMPTY-HINT", fmt.Sprintf("at %s the address of the placeholder hint built for a hint-less IA_PD (never assigned: a nil address) is compared with %s (%d bytes): the comparison is constantly false, so a hint-less request is classified as naming an address and the client's recorded leases are never handed back (each repeat allocates a new block)", c.P.InstrPos(in), shortName(y), staticLenOfGlobal(c.P, g)))
+					}
 				}
 			}
 		}
@@ -398,6 +428,7 @@ func rulePrefix(c *Ctx, prefix string, want map[string]bool) {
 		emit("KEEP.REUSE-FIRST", "new blocks are allocated only for hints that no known lease satisfied")
 		emit("KEEP.MARK", "handing back a known lease marks both the hint and the lease")
 		emit("KEEP.EXACT", "a known lease is reused only for an equal hinted prefix or as a not-yet-given lease for an empty hint")
+		emit("KEEP.EMPTY-HINT", fmt.Sprintf("no comparison of a never-assigned placeholder address with a non-empty constant (%d abstract (net.IP).Equal states examined)", counts["equal"]))
 		if counts["passed-over"] == 0 {
 			addb("KEEP.EMPTY-REUSE", "no loop over the recorded leases tests the given-out bitmap: shape not recognised")
 		}
@@ -543,4 +574,50 @@ func posLess(a, b string) bool {
 	x, _ := strconv.Atoi(pa[1])
 	y, _ := strconv.Atoi(pb[1])
 	return x < y
+}
+
+// globalByName resolves a canonical global name ("net.IPv6zero") to the SSA global.
+func globalByName(p *Program, name string) *ssa.Global {
+	i := strings.LastIndex(name, ".")
+	if i < 0 {
+		return nil
+	}
+	return p.Global(name[:i], name[i+1:])
+}
+
+// staticLenOfGlobal: the length of a slice-typed package variable all of whose
+// stores (its initialiser included) assign a slice of an array literal of one
+// fixed length; 0 when unknown.
+func staticLenOfGlobal(p *Program, g *ssa.Global) int64 {
+	stores := findStores(p, nil, g)
+	if len(stores) == 0 {
+		return 0
+	}
+	var n int64 = -1
+	for _, s := range stores {
+		v := s.Val
+		if ct, ok := v.(*ssa.ChangeType); ok {
+			v = ct.X
+		}
+		sl, ok := v.(*ssa.Slice)
+		if !ok || sl.Low != nil || sl.High != nil {
+			return 0
+		}
+		pt, ok := sl.X.Type().Underlying().(*types.Pointer)
+		if !ok {
+			return 0
+		}
+		at, ok := pt.Elem().Underlying().(*types.Array)
+		if !ok {
+			return 0
+		}
+		if n >= 0 && n != at.Len() {
+			return 0
+		}
+		n = at.Len()
+	}
+	if n < 0 {
+		return 0
+	}
+	return n
 }
